@@ -70,6 +70,9 @@ func ruleC14(c *Check, p *Prog) {
 	c14Single(c, p)
 	// the one crash that periodic data is known to provoke: a block 0^(m-1)1 needs a shifted polynomial of degree m
 	checkLCScratch(c, p)
+	// ... and the one a stuck-at source is bound to provoke if it is not prevented: the whole sample is ONE run of
+	// length n, far beyond the k classes of the run-length tables
+	checkIndexUpper(c, p, "R-RUN-CLAMP", "RunsDistributionTest", "run-length tables b, g, e (k classes)")
 	// (iv)
 	checkEquiv(c, p, "R-CHAIN-POKER-BYTES", "PokerTestBytes", eqSpec{Pkg: pkgRoot, Name: "PokerTestBytes", RefName: "PokerTestBytes", Dom: withParam(domLen(16, 5000), 1, 2, 9)}, "every byte (m=8) / both nibbles of every byte (m=4) is counted")
 }
@@ -135,4 +138,82 @@ func checkLCScratch(c *Check, p *Prog) {
 	c.Expect(n >= 1 && len(bad) == 0, "R-LC-SCRATCH", "linearComplexity", where,
 		"the slice written at the shifted index j+N-m has M+1 elements (a block of M-1 zeros followed by a one reaches index M)",
 		"shifted-index store without room for degree M: "+strings.Join(bad, "; "))
+}
+
+// checkIndexUpper: every index into an object allocated by the function is provably below the object's length:
+// syntactically (min(len, x)-1, len-c), or implied by the access's own path condition and the conditions of the
+// enclosing loops. Lower bounds are not examined.
+func checkIndexUpper(c *Check, p *Prog, rule, name, what string) {
+	fn := p.Func(pkgRoot, name)
+	if fn == nil {
+		c.Fail(rule, name, "-", "function not found")
+		return
+	}
+	x := NewExt(p, NewStore(), numConfig(fn))
+	sum := x.Summarize(fn, nil, nil)
+	S := x.S
+	where := p.Pos(fn.Pos())
+	if len(sum.Undecided) > 0 {
+		c.Undecided(rule, name, where, "%s", strings.Join(sum.Undecided, "; "))
+		return
+	}
+	lens := map[*Symbol]*Term{}
+	sum.Top.Events(func(e *Event, _ []*LoopS) {
+		if e.Kind == "alloc" && e.Res != nil && e.Len != nil {
+			lens[e.Res] = e.Len
+		}
+	})
+	n := 0
+	var bad []string
+	sum.Top.Events(func(e *Event, loops []*LoopS) {
+		if (e.Kind != "load" && e.Kind != "store") || e.Root == nil || e.Root.K != KSym || len(e.Path) != 1 {
+			return
+		}
+		L := lens[e.Root.Sym]
+		if L == nil {
+			return
+		}
+		n++
+		idx := e.Path[0]
+		// idx + 1 <= L ?
+		d := S.Sub(S.Add(idx, S.Int(1)), L)
+		if v, ok := d.IntVal(); ok && v <= 0 {
+			return
+		}
+		// min(L, x) - 1
+		for _, pr := range [][2]*Term{{idx, L}} {
+			i1 := S.Add(pr[0], S.Int(1))
+			if i1.Op == "imin" && (i1.Args[0] == pr[1] || i1.Args[1] == pr[1]) {
+				return
+			}
+		}
+		ctx := e.Guard
+		if ctx == nil {
+			ctx = S.True
+		}
+		var facts []*Term // linear forms known to be <= 0 here
+		for _, l := range loops {
+			if l.Cont != nil && l.Trip != nil {
+				// inside a counted loop the iteration counter is below the trip count
+				ctx = S.And(ctx, S.Cmp("<", S.SymTerm(l.Iter), l.Trip))
+				if l.Trip.Op == "max0" {
+					ctx = S.And(ctx, S.Cmp("<", S.SymTerm(l.Iter), l.Trip.Args[0]))
+					facts = append(facts, S.Add(S.Sub(S.SymTerm(l.Iter), l.Trip.Args[0]), S.Int(1)))
+				}
+			}
+		}
+		if S.Implies(ctx, S.le0(d)) {
+			return
+		}
+		// d <= f for a known f <= 0 (the loop stops even earlier than the table ends)
+		for _, f := range facts {
+			if v, ok := S.Sub(d, f).IntVal(); ok && v <= 0 {
+				return
+			}
+		}
+		bad = append(bad, fmt.Sprintf("%s of %v[%v] at %s: the index is not bounded by the length %v on this path", e.Kind, e.Root, idx, p.Pos(e.Pos), L))
+	})
+	c.Expect(len(bad) == 0 && n >= 4, rule, name, where,
+		fmt.Sprintf("all %d accesses of the %s stay below the table length (a run longer than the last class is counted in the last class)", n, what),
+		strings.Join(bad, "; "))
 }
